@@ -39,8 +39,11 @@ def gen_compositions(r: Run, T):
     comps = []
     named = [[("C", 6), ("H", 12), ("O", 6)], [("H", 2), ("O", 1)], [("C", 34), ("H", 53), ("O", 15), ("N", 7)],
              [("C", 2), ("H", 6), ("S", 1)], [("Cl", 2)], [("K", 300)], [("Br", 4)], [("S", 8)], [("Ca", 1), ("Cl", 2)],
-             [("Si", 2), ("Mg", 1), ("O", 4)], [("Fe", 2), ("O", 3)], [("C", 600), ("H", 1200), ("O", 600)],
+             [("Si", 2), ("Mg", 1), ("O", 4)], [("Fe", 2), ("O", 3)],
              [("C", 100), ("H", 200), ("N", 30), ("O", 40), ("S", 2)], [("K", 3)], [("Ne", 5)], [("Lu", 2), ("O", 3)]]
+    if thorough:
+        # the exact oracle raises polynomials to these powers by repeated multiplication: minutes per case
+        named += [[("C", 600), ("H", 1200), ("O", 600)], [("C", 1000), ("H", 1600), ("N", 280), ("O", 300), ("Fe", 1)]]
     comps += named
     counts = [0, 1, 2, 3, 5, 17, 64, 100]
     k = 0
@@ -52,7 +55,7 @@ def gen_compositions(r: Run, T):
     for _ in range(300 if thorough else 40):
         n = rng.randint(1, 5)
         els = rng.sample(good if rng.random() < 0.7 else domain, n)
-        tot = rng.choice([10, 50, 200, 600] if not thorough else [10, 50, 200, 600, 2000, 5000])
+        tot = rng.choice([10, 50, 200] if not thorough else [10, 50, 200, 600, 2000])
         cs = [max(0, int(rng.random() * tot / n)) for _ in els]
         if sum(cs) == 0:
             cs[0] = 1
@@ -158,6 +161,15 @@ def judge(case, il, dl, T):
                 if not close(got, want, rel=1e-9, abs_=1e-12):
                     issues.append(("C03", "ratio", f"intensity ratio of variants {js[i]}/{js[ref]} is {float(got):.12g}, exact {float(want):.12g}"))
                     break
+    # ---- C03 single atom: exactly one peak per tabulated isotope, at its mass, with its abundance ----
+    if len(comp) == 1 and comp[0][1] == 1 and req.startswith("n:") and int(req[2:]) >= T[comp[0][0]]["span"] + 1:
+        isos = T[comp[0][0]]["isos"]
+        tot = sum(Fraction(i["abundance"]) for i in isos)
+        want = sorted((conv(Fraction(i["mass"])), Fraction(i["abundance"]) / tot) for i in isos)
+        if len(peaks) != len(want):
+            issues.append(("C03", "single-atom", f"{len(peaks)} peaks for an element with {len(want)} tabulated isotopes"))
+        elif not all(close(a[0], b[0], abs_=1e-6, rel=0) and close(a[1], b[1], rel=1e-9) for a, b in zip(sorted(peaks), want)):
+            issues.append(("C03", "single-atom", "peaks are not (isotope mass, isotope abundance) of the tabulated isotopes"))
     # ---- C09 requested count ----
     kind = req.split(":")[0]
     n_req = None
@@ -215,16 +227,30 @@ def run_c03_c09(r: Run, prop):
                 [("Cl", 2)], [("K", 300)], [("Br", 4)], [("S", 8)], [("Ca", 1), ("Cl", 2)], [("C", 60), ("H", 120), ("O", 60)]]
         ns = list(range(-3, 41)) + [64, 150, 300, 320] if thorough else [-3, -1, 0, 1, 2, 3, 4, 7, 8, 9, 16, 33, 64, 300, 320]
         for comp in pool:
+            big = sum(T[s]["span"] * k for s, k in comp) > 100
             for n in ns:
+                if big and n > 40 and not thorough:
+                    continue   # exact evaluation at order ~300 takes minutes: thorough tier only
                 cases.append((comp, f"n:{n}", 0, PROTON, "vec"))
             for req in ("n:2147483647", "n:-2147483648", "u:0", "u:3", "u:4294967297", "none", "some:4", "some:0",
                         "f:0/1", "f:1/8", "f:1/2", "f:7/8", "f:127/128", "f:8191/8192", "f:1/1"):
+                if big and req in ("n:2147483647", "f:1/1", "f:8191/8192") and not thorough:
+                    continue   # these resolve to an order of several hundred on a large composition
                 cases.append((comp, req, 1, PROTON, "map"))
     lines = [f"brain\t{pairs_of(c)}\t{req}\t{z}\t{fr(ca)}\t{form}" for c, req, z, ca, form in cases]
     impl = r.impl("brain", lines, stall=120)
     model = r.model("brain", lines, stall=600)
     corr_ok = True
     seen = set()
+    # elements whose own single-atom pattern is already wrong (any clause of either property): a failing
+    # composition is attributed to such an element when it contains one
+    single_bad = set()
+    for case, il, dl in zip(cases, impl, model):
+        comp = case[0]
+        if len(comp) == 1 and comp[0][1] == 1:
+            if any(p in ("C03", "C09") for p, _, _ in judge(case, il, dl, T)):
+                single_bad.add(comp[0][0])
+    r.coverage["elements_with_wrong_single_atom_pattern"] = sorted(single_bad)
     for case, line, il, dl in zip(cases, lines, impl, model):
         comp, req, z, ca, form = case
         els = tuple(sorted(s for s, _ in comp))
@@ -242,9 +268,9 @@ def run_c03_c09(r: Run, prop):
                 r.coverage["disagreements_attributed_to_other_properties"] = r.coverage.get("disagreements_attributed_to_other_properties", 0) + 1
                 continue
             corr_ok = False
-            # shrink: the smallest single-element sub-composition on which the same clause fails
-            culprit = shrink_comp(r, case, p, clause, T)
-            wit = {"element": culprit} if culprit else {"elements": list(els)[:4]}
+            # attribution: a composition fails because of an element whose own pattern is wrong, if it holds one
+            culprits = sorted(s for s, n in comp if s in single_bad and n > 0)
+            wit = {"element": culprits[0]} if culprits else {"elements": list(els)[:4]}
             if (clause, json.dumps(wit)) in seen:
                 continue
             seen.add((clause, json.dumps(wit)))
